@@ -74,3 +74,9 @@ func verifLemmaRtpHeaderRoundTrip(h RtpHeader, buf []byte) (RtpHeader, error) {
 //@   returns [C12.fu.last.body] len(nal) > maxSize ==> forall j in [0, epos - bpos) :: item[headerSize+j] == nal[bpos+j]
 //@   ensures [C12.single] len(nal) <= maxSize ==> len(result) == 1
 //@ end
+
+// A packet is stale iff it is not after the last consumed sequence number (duplicates of it included).
+//@ func (*RtpPacketList).IsStale
+//@   props C12
+//@   ensures [C12.stale] seq - l.doneSeq != 32768 ==> result == (l.doneSeqFlag && int16(seq - l.doneSeq) <= 0)
+//@ end
